@@ -478,7 +478,7 @@ def apply_regime(module, regime, seed):
                     p.add_(noise * (0.3 if leaf in NONSINGULAR else 1.0))
                 else:
                     p.copy_(noise)
-            elif regime == "nonuniform":
+            elif regime in ("nonuniform", "flatbin"):
                 noise = torch.randn(p.shape, generator=g, dtype=p.dtype) * 0.5
                 if leaf == "weight" and p.dim() >= 2:
                     noise = noise * 3.0 / math.sqrt(max(1, int(np.prod(p.shape[1:]))))
@@ -489,7 +489,17 @@ def apply_regime(module, regime, seed):
                 if p.dim() >= 1 and p.shape[-1] >= 2 and "unnorm" in leaf:
                     idx = torch.randint(0, p.shape[-1], p.shape[:-1] + (1,), generator=g)
                     sign = (torch.rand(p.shape[:-1] + (1,), generator=g) < 0.5).to(p.dtype) * 2 - 1
-                    p.scatter_(-1, idx, 6.0 * sign)
+                    mag = 6.0
+                    if regime == "flatbin" and ("widths" in leaf or "heights" in leaf):
+                        # the same bin stands out in widths and heights: a wide flat bin, a narrow steep one, or a big / tiny bin
+                        g2 = torch.Generator().manual_seed((int(seed) * 7919 + 13) % (2 ** 31))
+                        idx = torch.randint(0, p.shape[-1], p.shape[:-1] + (1,), generator=g2)
+                        sign = (torch.rand(p.shape[:-1] + (1,), generator=g2) < 0.5).to(p.dtype) * 2 - 1
+                        flip = (torch.rand(p.shape[:-1] + (1,), generator=g2) < 0.7).to(p.dtype) * 2 - 1
+                        mag = [4.0, 6.0, 9.0][int(torch.randint(0, 3, (1,), generator=g2))]
+                        if "heights" in leaf:
+                            sign = -sign * flip
+                    p.scatter_(-1, idx, mag * sign)
             elif regime == "bounded":  # |param| <= 2 (C19 "moderate magnitude")
                 if leaf in NONSINGULAR:
                     p.add_(torch.randn(p.shape, generator=g, dtype=p.dtype) * 0.2)
@@ -502,7 +512,7 @@ def apply_regime(module, regime, seed):
                 raise ValueError(regime)
 
 
-REGIMES_ALL = ["fresh", "zero", "equal", "small", "moderate", "nonuniform"]
+REGIMES_ALL = ["fresh", "zero", "equal", "small", "moderate", "nonuniform", "flatbin"]
 
 
 # ------------------------------------------------------------------------------------------------------------------
